@@ -72,3 +72,104 @@ fn multiply_u128_spec() {
     assert_eq!(r, a.wrapping_mul(b) & mask128(w));
     kani::cover!(m.is_none() && a > 1 && b > 1);
 }
+
+// ---- vector kernels (length 2, symbolic values), one harness per modulus so that `% m` folds
+macro_rules! vec64 {
+    ($name:ident, $m:expr, $w:expr) => {
+        #[kani::proof]
+        #[kani::unwind(4)]
+        #[kani::stub(std::backtrace::Backtrace::capture, no_backtrace)]
+        #[kani::stub(alloc::fmt::format, no_format)]
+        #[kani::stub(anyhow::__private::format_err, error_is_failure)]
+        fn $name() {
+            let a: [u64; 2] = kani::any();
+            let b: [u64; 2] = kani::any();
+            let m: Option<u64> = $m;
+            let mk = mask64($w);
+            let s = ciphercore_base::bytes::add_vectors_u64(&a, &b, m).unwrap();
+            let d = ciphercore_base::bytes::subtract_vectors_u64(&a, &b, m).unwrap();
+            let p = ciphercore_base::bytes::multiply_vectors_u64(&a, &b, m).unwrap();
+            let dt = ciphercore_base::bytes::dot_vectors_u64(&a, &b, m).unwrap();
+            let sm = ciphercore_base::bytes::sum_vector_u64(&a, m);
+            assert!(s.len() == 2 && d.len() == 2 && p.len() == 2);
+            for i in 0..2 {
+                assert_eq!(s[i], a[i].wrapping_add(b[i]) & mk);
+                assert_eq!(d[i], a[i].wrapping_sub(b[i]) & mk);
+                assert_eq!(p[i], a[i].wrapping_mul(b[i]) & mk);
+            }
+            assert_eq!(dt, a[0].wrapping_mul(b[0]).wrapping_add(a[1].wrapping_mul(b[1])) & mk);
+            assert_eq!(sm, a[0].wrapping_add(a[1]) & mk);
+            kani::cover!(a[0] > (mk >> 1) && b[1] > (mk >> 1));
+            forget(s); forget(d); forget(p);
+        }
+    };
+}
+vec64!(vec64_bit, Some(2), 1);
+vec64!(vec64_w8, Some(1 << 8), 8);
+vec64!(vec64_w16, Some(1 << 16), 16);
+vec64!(vec64_w32, Some(1 << 32), 32);
+vec64!(vec64_w64, None, 64);
+
+macro_rules! vec128 {
+    ($name:ident, $m:expr, $w:expr, $mul:expr) => {
+        #[kani::proof]
+        #[kani::unwind(4)]
+        #[kani::stub(std::backtrace::Backtrace::capture, no_backtrace)]
+        #[kani::stub(alloc::fmt::format, no_format)]
+        #[kani::stub(anyhow::__private::format_err, error_is_failure)]
+        fn $name() {
+            let a: [u128; 2] = kani::any();
+            let b: [u128; 2] = kani::any();
+            let m: Option<u128> = $m;
+            let mk = mask128($w);
+            let s = ciphercore_base::bytes::add_vectors_u128(&a, &b, m).unwrap();
+            let d = ciphercore_base::bytes::subtract_vectors_u128(&a, &b, m).unwrap();
+            assert!(s.len() == 2 && d.len() == 2);
+            for i in 0..2 {
+                assert_eq!(s[i], a[i].wrapping_add(b[i]) & mk);
+                assert_eq!(d[i], a[i].wrapping_sub(b[i]) & mk);
+            }
+            if $mul {
+                let p = ciphercore_base::bytes::multiply_vectors_u128(&a, &b, m).unwrap();
+                let dt = ciphercore_base::bytes::dot_vectors_u128(&a, &b, m).unwrap();
+                for i in 0..2 {
+                    assert_eq!(p[i], a[i].wrapping_mul(b[i]) & mk);
+                }
+                assert_eq!(dt, a[0].wrapping_mul(b[0]).wrapping_add(a[1].wrapping_mul(b[1])) & mk);
+                forget(p);
+            }
+            kani::cover!(a[0] > (1u128 << 64) && b[1] > (1u128 << 100));
+            forget(s); forget(d);
+        }
+    };
+}
+vec128!(vec128_bit, Some(2), 1, true);
+vec128!(vec128_w8, Some(1 << 8), 8, true);
+vec128!(vec128_w32, Some(1 << 32), 32, true);
+vec128!(vec128_w64, Some(1 << 64), 64, true);
+vec128!(vec128_w128_addsub, None, 128, false);
+vec128!(vec128_w128_mul, None, 128, true);
+
+/// broadcast_to_shape: every result element is the NumPy-broadcast source element
+#[kani::proof]
+#[kani::unwind(10)]
+fn broadcast_to_shape_spec() {
+    use ciphercore_base::evaluators::simple_evaluator::verif_hooks::broadcast_to_shape_u128;
+    // source shapes [d0, d1] with d in {1,2} broadcast to [2, 2, 2]
+    let d0: u64 = kani::any();
+    let d1: u64 = kani::any();
+    kani::assume((d0 == 1 || d0 == 2) && (d1 == 1 || d1 == 2));
+    let arr: [u128; 4] = kani::any();
+    let n = (d0 * d1) as usize;
+    let out = broadcast_to_shape_u128(&arr[..n], &[d0, d1], &[2, 2, 2]);
+    assert!(out.len() == 8);
+    let i: usize = kani::any();
+    let j: usize = kani::any();
+    let k: usize = kani::any();
+    kani::assume(i < 2 && j < 2 && k < 2);
+    let sj = if d0 == 1 { 0 } else { j };
+    let sk = if d1 == 1 { 0 } else { k };
+    assert_eq!(out[i * 4 + j * 2 + k], arr[sj * (d1 as usize) + sk]);
+    kani::cover!(d0 == 1 && d1 == 2);
+    forget(out);
+}
